@@ -70,6 +70,8 @@ def replay_instances(ctx):
         out += [
             # every connection dynamic
             inst("rsvp-full", "rsvp", ("time", "updown", "probe", "rabort", "close"), static=()),
+            # the ASN population with probes, the client leaving before the answer, only the no-IP link static
+            inst("asn-full", "asn", ("time", "updown", "probe", "rabort"), static=("n1",), MaxRes=3, MaxPerIP=2, MaxPerASN=1),
             # MaxCircuits 2: the caps are reached by two attempts of the same peer
             inst("conn2", "conn", ("updown", "abort"), static=("a2", "b2", "r1", "a3"), faults=("open", "nonok"), MaxAtt=2,
                  MaxCirc=2, DataLimit=1, Chunks="{1}", MaxRes=3, MaxPerIP=2),
